@@ -70,6 +70,14 @@ def _leaf(tl, path):
     return t if si is None else t._terms[si]
 
 
+def _info_sans_lam(info):
+    if isinstance(info, dict):
+        return '{' + ','.join('%s:%s' % (k, _info_sans_lam(v)) for k, v in sorted(info.items()) if k != 'lam') + '}'
+    if isinstance(info, (list, tuple)):
+        return '[' + ','.join(_info_sans_lam(v) for v in info) + ']'
+    return repr(info)
+
+
 def _grid(case, rs):
     k = case['npts']
     e = np.linspace(-6, 6, k)
@@ -94,6 +102,10 @@ def _problem(case, pygam):
         pr = termgen.gen_program(rng, pygam, n_rows=260, n_query=8, allow_constraints=False, allow_periodic_penalty=False,
                                  max_terms=case['max_terms'], tensor_prob=0.25)
         tl = pr.terms
+    # TermList drops a term equal to an earlier one: terms that differ only in lam would merge somewhere on the path
+    sigs = [_info_sans_lam(t.info) for t in tl]
+    if len(set(sigs)) != len(sigs):
+        raise ValueError('two terms differ at most in lam')
     m = int(tl.n_coefs)
     n = {'m+1': m + 1, 'small': 12, 'mid': 60, 'large': 200}[case['n_mode']]
     n = max(min(n, 260), 6)
@@ -209,6 +221,17 @@ def _null_fit(B, R, Pv, wv, y):
 
 def _q(x):
     return termgen.q(x)
+
+
+def _lb(x):
+    """histogram bucket: floor(log10 x), or a label for 0 / non-finite"""
+    with np.errstate(all='ignore'):
+        if not np.isfinite(x):
+            return 'non-finite'
+        if x <= 0:
+            return 'zero'
+        v = np.floor(np.log10(x))
+        return int(v) if np.isfinite(v) else 'zero'
 
 
 def _qs(a):
@@ -397,13 +420,13 @@ def run(ctx):
         ctx.case(st_mono, sig, nontrivial=nontriv, sample=small)
         ctx.case(st_lit, sig, nontrivial=nontriv and r['other_pen'] == 0)
         with np.errstate(all='ignore'):
-            ctx.count('log10 max condition of [sqrt(W)B; E] on the path', int(np.floor(np.log10(max(p['condM'] for p in pts)))))
+            ctx.count('log10 max condition of [sqrt(W)B; E] on the path', _lb(max(p['condM'] for p in pts)))
         if literal:
             worst = max(literal, key=lambda d: d['rel'])
             if r['other_pen'] > 0:
                 # not a defect of pyGAM: the sentence is false in general when another penalty is held fixed
                 ctx.count('suspected-defect', 'property text: RSS alone decreases along a single-penalty path while other penalties are fixed (theorem gives RSS + fixed penalties only)')
-                ctx.count('literal RSS decrease with other penalties fixed: log10 relative size', int(np.floor(np.log10(max(worst['rel'], 1e-300)))))
+                ctx.count('literal RSS decrease with other penalties fixed: log10 relative size', _lb(worst['rel']))
             else:
                 ctx.count('literal RSS decrease within the sqrt(eps)-ridge slack', 'n')
         if fails:
@@ -421,7 +444,7 @@ def run(ctx):
         worst_cf = max(pts, key=lambda p: p['d_cf'] / max(1e-9, 100 * EPS * p['condM']))
         tcf = 10 * max(1e-7, 100 * EPS * worst_cf['condM'])
         with np.errstate(all='ignore'):
-            ctx.count('closed form: log10(diff / tol)', int(np.floor(np.log10(max(worst_cf['d_cf'], 1e-300) / tcf))))
+            ctx.count('closed form: log10(diff / tol)', _lb(worst_cf['d_cf'] / tcf))
         if worst_cf['d_cf'] > tcf:
             ctx.fail(st_cf, dict(kind='closed-form', cls=case['cls'], lam0=(worst_cf['lam'] == 0)), dict(path=case, lam=worst_cf['lam'], n=r['n'], m=r['m'], varied=r['varied']),
                      observed='fitted values differ from the penalised weighted least-squares solution by %.3g (relative) at lam = %.3g' % (worst_cf['d_cf'], worst_cf['lam']),
@@ -450,7 +473,7 @@ def run(ctx):
             if 'd_line' in lim and lim['d_line'] > tdist + 1e-6:
                 lbad.append('default spline term at lam = %.3g is not the weighted straight-line fit: %.3g (relative)' % (lim['lam'], lim['d_line']))
             with np.errstate(all='ignore'):
-                ctx.count('limit: log10(distance / tolerance)', int(np.floor(np.log10(max(lim['d_train'], 1e-300) / tdist))))
+                ctx.count('limit: log10(distance / tolerance)', _lb(lim['d_train'] / tdist))
             if lbad:
                 ctx.fail(st_lim, dict(kind='limit', cls=case['cls'], varied=case['kind']), dict(path=case, lam=lim['lam'], varied=r['varied'], n=r['n'], m=r['m']),
                          observed=lbad, expected='the weighted least-squares fit within the null space of the varied penalty (+ fixed penalties)', oracle='NumPy null-space WLS / np.polyfit; squeeze inequalities')
